@@ -399,14 +399,21 @@ func (m *C13) After(w *world.World, a *world.Action) {
 // ---------------------------------------------------------------- C19 (generic part)
 
 // NoTrace: a failed transaction leaves the watched stores untouched.
-type NoTrace struct{ R *mon.Recorder }
+type NoTrace struct {
+	R          *mon.Recorder
+	GasBuckets bool // count gas-limit aborts as distinct per 2000-gas bucket
+}
 
 func (m *NoTrace) Before(w *world.World, a *world.Action) {}
 func (m *NoTrace) After(w *world.World, a *world.Action) {
 	if a.Res.OK() || a.Exec != nil || a.Res.Space == "verif-build" {
 		return
 	}
-	m.R.Judge("failed-tx/"+a.Kind, a.Mut, logClass(a.Res.Log), a.Res.Space, a.Res.Code)
+	if m.GasBuckets && a.Mut == "gas-limit" {
+		m.R.Judge("failed-tx/gas-abort/"+a.Note, a.Gas/2000, a.Res.GasUsed/2000)
+	} else {
+		m.R.Judge("failed-tx/"+a.Kind, a.Mut, logClass(a.Res.Log), a.Res.Space, a.Res.Code)
+	}
 	m.R.Count("failed-tx", 1)
 	if len(a.Res.Diff) != 0 {
 		violate(w, m.R, "failed-msg-left-trace", map[string]string{"kind": a.Kind, "mut": a.Mut},
